@@ -71,7 +71,7 @@ def k_hdr(ctx, **f):
         ok, rp = attempt(u.pack)
         ctx.check("hdr.roundtrip", ok and bytes(rp) == want, "repack", "", case)
         ctx.check("hdr.roundtrip", u == h, "eq", "", case)
-        ISO.remember(u, want, "header")
+        ISO.remember(u, want, "header", view=lambda u=u: C.hdr_fields(u))
         ISO.recheck(ctx, "hdr.decoded_objects_independent", case)
 
 
@@ -161,7 +161,77 @@ def k_refuse(ctx, what, value):
         ctx.fail("hdr.refusal", "wrong_error", f"{what}/{type(res).__name__}", case, error=repr(res))
 
 
-KINDS = {"hdr": k_hdr, "decode": k_decode, "refuse": k_refuse}
+def k_reuse(ctx, seed, start="ctor"):
+    """One header object re-used for several transactions: every field is moved to a new value through the documented
+    setters (and in-place assignment to the id / sequence number fields), and after every round the packed octets and all
+    views must be those of the current values."""
+    import random
+    X = C.lib()
+    d = X.defs
+    r = random.Random(f"reuse/{seed}")
+    case = {"k": "reuse", "seed": seed, "start": start}
+    ctx.case(f"reuse/{start}", ("reuse", seed, start), sample=case)
+
+    def rnd_fields(idw=None, seqw=None):
+        idw = idw or r.choice(C.WIDTHS)
+        seqw = seqw or r.choice(C.WIDTHS)
+        return dict(pdu_type=r.getrandbits(1), direction=r.getrandbits(1), mode=r.getrandbits(1), crc=r.getrandbits(1), large=r.getrandbits(1),
+                    data_len=r.choice((0, 1, 255, 256, 65535, r.getrandbits(16))), segctrl=r.getrandbits(1), segmeta=r.getrandbits(1), idw=idw, seqw=seqw,
+                    src=rand_uint(r, 8 * idw), seq=rand_uint(r, 8 * seqw), dst=rand_uint(r, 8 * idw))
+
+    f = rnd_fields()
+    ok, hc = attempt(_mk_header, f)
+    if not ctx.check("hdr.reuse", ok, "construct_raised", "", case, error=repr(hc)):
+        return
+    h = hc[0]
+    if start == "unpack":
+        h = X.PduHeader.unpack(bytes(h.pack()))
+    trail = []
+    for rnd in range(r.randrange(1, 5)):
+        if r.random() < 0.7:
+            h.pack()
+        inplace = r.random() < 0.5
+        g = rnd_fields(f["idw"], f["seqw"]) if inplace else rnd_fields()
+        ops = [("pdu_type", lambda: setattr(h, "pdu_type", d.PduType(g["pdu_type"]))),
+               ("direction", lambda: setattr(h, "direction", d.Direction(g["direction"]))),
+               ("transmission_mode", lambda: setattr(h, "transmission_mode", d.TransmissionMode(g["mode"]))),
+               ("crc_flag", lambda: setattr(h, "crc_flag", d.CrcFlag(g["crc"]))),
+               ("file_flag", lambda: setattr(h, "file_flag", d.LargeFileFlag(g["large"]))),
+               ("seg_ctrl", lambda: setattr(h, "seg_ctrl", d.SegmentationControl(g["segctrl"]))),
+               ("pdu_data_field_len", lambda: setattr(h, "pdu_data_field_len", g["data_len"]))]
+        if inplace:
+            how = r.choice(("int", "bytes"))
+            conv = (lambda v, w: v) if how == "int" else (lambda v, w: v.to_bytes(w, "big"))
+            ops += [(f"src.value={how}", lambda: setattr(h.source_entity_id, "value", conv(g["src"], g["idw"]))),
+                    (f"dst.value={how}", lambda: setattr(h.dest_entity_id, "value", conv(g["dst"], g["idw"]))),
+                    (f"seq.value={how}", lambda: setattr(h.transaction_seq_num, "value", conv(g["seq"], g["seqw"])))]
+        else:
+            ops += [("set_entity_ids", lambda: h.set_entity_ids(X.ByteFieldGenerator.from_int(g["idw"], g["src"]), X.ByteFieldGenerator.from_int(g["idw"], g["dst"]))),
+                    ("transaction_seq_num", lambda: setattr(h, "transaction_seq_num", X.ByteFieldGenerator.from_int(g["seqw"], g["seq"])))]
+        r.shuffle(ops)
+        g["segmeta"] = f["segmeta"]          # no setter for the segment metadata flag on the bare header
+        for name, fn in ops:
+            ok, e = attempt(fn)
+            trail.append(name)
+            ctx.table("reuse_setters", name.split("=")[0])
+            if not ctx.check("hdr.reuse", ok, "setter_raised", name.split("=")[0], case, error=repr(e), trail=trail[-12:]):
+                return
+        f = g
+        want = R.header(*(f[k] for k in FIELDS))
+        ok, p = attempt(lambda: bytes(h.pack()))
+        if not ctx.check("hdr.reuse", ok and p == want, "octets_after_setters", ("inplace_value" if inplace else "setters") + "/" + (_diff_region(p, want, f) if ok else "raised"),
+                         case, expected=want, observed=p if ok else repr(p), trail=trail[-12:], round=rnd):
+            return
+        got = C.hdr_fields(h)
+        exp = dict(R.decode_header(want), dst_w=f["idw"])
+        if not ctx.check("hdr.reuse", got == exp, "views_after_setters", C.diff_keys(got, exp), case, expected=exp, observed=got, trail=trail[-12:]):
+            return
+        ok, u = attempt(X.PduHeader.unpack, p)
+        if not ctx.check("hdr.reuse", ok and C.hdr_fields(u) == exp, "decode_after_setters", "", case, trail=trail[-12:]):
+            return
+
+
+KINDS = {"hdr": k_hdr, "decode": k_decode, "refuse": k_refuse, "reuse": k_reuse}
 
 
 def selftest(ctx):
@@ -182,6 +252,7 @@ def selftest(ctx):
 def run(ctx):
     r = ctx.rng
     i = 0
+    _run_reuse(ctx)
     for flags in range(128):
         pdu_type, direction, mode, crc, large, segctrl, segmeta = ((flags >> s) & 1 for s in range(7))
         for idw in C.WIDTHS:
@@ -239,6 +310,11 @@ def run(ctx):
     ok, res = attempt(lambda: _mk_header(dict(pdu_type=0, direction=0, mode=0, crc=0, large=0, data_len=-1, segctrl=0, segmeta=0,
                                               idw=1, seqw=1, src=1, seq=2, dst=3))[0].pack())
     ctx.note("negative data-field length: " + ("encoded " + bytes(res).hex() if ok else "refused with " + type(res).__name__))
+
+
+def _run_reuse(ctx):
+    for j in range(ctx.n(1200, 60_000)):
+        k_reuse(ctx, ctx.seed * 1_000_003 + ctx.shard[0] * 100_003 + j, "unpack" if j % 3 == 0 else "ctor")
 
 
 def conclude(ctx):
